@@ -1,103 +1,140 @@
 (* proofs/CrashSchemaProofs.v -- C05: every prefix of the autocommitted statements of
    DBSession.apply_schema is reopened successfully and completed (the D13 theorem, which covers the
    point after the last statement, extended to every statement of apply_schema), for the statement
-   order GENERATED from the source; the order "scripts first, stamps last" is refuted. *)
+   order and the DROP positions GENERATED from the source, for a first start and for a start on an
+   existing database; the order "scripts first, stamps last" is refuted. *)
 From Coq Require Import List NArith Bool Arith Lia.
 From SV Require Import gen.GenCrashSchema model.CrashSchema.
 Import ListNotations.
 Open Scope nat_scope.
 
-Lemma firstn_seq0 : forall n j s, firstn j (seq s n) = seq s (Nat.min j n).
+Lemma memn_app i l x : memn i (l ++ [x]) = memn i l || (i =? x).
+Proof. unfold memn. rewrite existsb_app. cbn. rewrite orb_false_r. reflexivity. Qed.
+
+Lemma memn_filter i j l : i <> j -> memn i (filter (fun x => negb (x =? j)) l) = memn i l.
 Proof.
-  induction n as [|n IH]; intros [|j] s; cbn; try reflexivity. rewrite IH. reflexivity.
+  intros Hne. unfold memn. induction l as [|x l IH]; [reflexivity|]. cbn [filter existsb].
+  destruct (x =? j) eqn:E; cbn [negb existsb].
+  - apply Nat.eqb_eq in E. subst. assert (i =? j = false) by (apply Nat.eqb_neq; exact Hne). rewrite H. exact IH.
+  - rewrite IH. reflexivity.
 Qed.
 
-Lemma memn_seq i m : memn i (seq 0 m) = (i <? m).
+(* stamps are never taken back *)
+Lemma exec_flags h s : (happ h = true -> happ (exec h s) = true) /\ (hver h = true -> hver (exec h s) = true).
+Proof. destruct s; cbn [exec happ hver]; try (destruct (memn i (hobjs h))); cbn [happ hver]; auto. Qed.
+Lemma run_flags l : forall h, (happ h = true -> happ (run l h) = true) /\ (hver h = true -> hver (run l h) = true).
 Proof.
-  unfold memn. destruct (i <? m) eqn:E.
-  - apply Nat.ltb_lt in E. apply existsb_exists. exists i. split; [apply in_seq; lia | apply Nat.eqb_refl].
-  - apply Nat.ltb_ge in E. destruct (existsb (Nat.eqb i) (seq 0 m)) eqn:X; [|reflexivity].
-    apply existsb_exists in X. destruct X as (x & Hx & He). apply Nat.eqb_eq in He. subst.
-    apply in_seq in Hx. lia.
+  induction l as [|s l IH]; intros h; [cbn; auto|]. cbn [run fold_left].
+  destruct (exec_flags h s) as [A V]. destruct (IH (exec h s)) as [A' V']. split; auto.
 Qed.
 
-(* running the CREATEs 0 .. m-1 on a file that has the objects 0 .. j-1 gives 0 .. max j m - 1 *)
-Lemma run_creates a v : forall m j,
-  run (map SCreate (seq 0 m)) (mkH a v (seq 0 j)) = mkH a v (seq 0 (Nat.max j m)).
+(* an object that is present stays present under the statements of OTHER objects *)
+Lemma exec_keeps i h s : (forall j, s = SDrop j -> j <> i) -> memn i (hobjs h) = true -> memn i (hobjs (exec h s)) = true.
 Proof.
-  induction m as [|m IH]; intros j; [cbn; rewrite Nat.max_0_r; reflexivity|].
-  rewrite seq_S, map_app. unfold run. rewrite fold_left_app. fold (run (map SCreate (seq 0 m)) (mkH a v (seq 0 j))).
-  rewrite IH. cbn [map fold_left exec hobjs happ hver plus]. rewrite memn_seq.
-  destruct (m <? Nat.max j m) eqn:E.
-  - apply Nat.ltb_lt in E. f_equal. f_equal. lia.
-  - apply Nat.ltb_ge in E. replace (Nat.max j m) with m by lia. replace (Nat.max j (S m)) with (S m) by lia.
-    rewrite seq_S. reflexivity.
+  intros Hs Hm. destruct s as [| |j|j]; cbn [exec hobjs]; auto.
+  - destruct (memn j (hobjs h)); cbn [hobjs]; [exact Hm|]. rewrite memn_app, Hm. reflexivity.
+  - rewrite memn_filter; [exact Hm|]. intros E. apply (Hs j eq_refl). symmetry. exact E.
 Qed.
 
-Lemma prog_123 n : prog [1%N; 2%N; 3%N] n = SAppId :: SUserVersion :: map SCreate (seq 0 n).
+Definition item (drops : list nat) (i : nat) : list sstmt := (if memn i drops then [SDrop i] else []) ++ [SCreate i].
+
+Lemma item_creates drops i h : memn i (hobjs (run (item drops i) h)) = true.
+Proof.
+  unfold item. assert (H : forall h0, memn i (hobjs (exec h0 (SCreate i))) = true).
+  { intros h0. cbn [exec]. destruct (memn i (hobjs h0)) eqn:E; [exact E|]. cbn [hobjs]. rewrite memn_app, Nat.eqb_refl. apply orb_true_r. }
+  destruct (memn i drops); cbn [app run fold_left]; apply H.
+Qed.
+
+Lemma item_keeps drops i j h : i <> j -> memn i (hobjs h) = true -> memn i (hobjs (run (item drops j) h)) = true.
+Proof.
+  intros Hne Hm. unfold item.
+  assert (Hc : forall h0, memn i (hobjs h0) = true -> memn i (hobjs (exec h0 (SCreate j))) = true).
+  { intros h0 H0. apply exec_keeps; [intros x E; discriminate | exact H0]. }
+  destruct (memn j drops); cbn [app run fold_left]; [|apply Hc; exact Hm].
+  apply Hc. apply exec_keeps; [|exact Hm]. intros x E. injection E as <-. intros E2. apply Hne. symmetry. exact E2.
+Qed.
+
+Lemma script_S drops n : script drops (S n) = script drops n ++ item drops n.
+Proof. unfold script. rewrite seq_S, flat_map_app. cbn [flat_map plus]. rewrite app_nil_r. reflexivity. Qed.
+
+(* after the scripts every object is there, whatever the file held before *)
+Lemma script_completes drops : forall n h i, i < n -> memn i (hobjs (run (script drops n) h)) = true.
+Proof.
+  induction n as [|n IH]; intros h i Hi; [lia|]. rewrite script_S. unfold run. rewrite fold_left_app.
+  fold (run (script drops n) h). fold (run (item drops n) (run (script drops n) h)).
+  destruct (Nat.eq_dec i n) as [->|Hne]; [apply item_creates|].
+  apply item_keeps; [exact Hne|]. apply IH. lia.
+Qed.
+
+Lemma prog_123 drops n : prog [1%N; 2%N; 3%N] drops n = SAppId :: SUserVersion :: script drops n.
 Proof. unfold prog. cbn. rewrite app_nil_r. reflexivity. Qed.
 
-Lemma run_prog_123 a v n j : j <= n -> run (prog [1%N; 2%N; 3%N] n) (mkH a v (seq 0 j)) = complete n.
+Lemma run_prog_complete drops n h : complete_b n (run (prog [1%N; 2%N; 3%N] drops n) h) = true.
 Proof.
-  intros Hj. rewrite prog_123. unfold run. cbn [fold_left exec happ hver hobjs].
-  fold (run (map SCreate (seq 0 n)) (mkH true true (seq 0 j))). rewrite run_creates.
-  unfold complete. f_equal. f_equal. lia.
+  rewrite prog_123. set (h1 := mkH true true (hobjs h)).
+  change (run (SAppId :: SUserVersion :: script drops n) h) with (run (script drops n) h1). destruct (run_flags (script drops n) h1) as [A V].
+  unfold complete_b. rewrite (A eq_refl), (V eq_refl). cbn [andb].
+  apply forallb_forall. intros i Hi. apply in_seq in Hi. apply script_completes. lia.
 Qed.
 
-(* the file left by a kill after k statements *)
-Lemma crash_123 n k :
-  schema_crash [1%N; 2%N; 3%N] n k =
-  match k with
-  | 0 => new_file
-  | 1 => mkH true false []
-  | S (S j) => mkH true true (seq 0 (Nat.min j n))
-  end.
+Lemma open_ok drops n c :
+  (happ c = true \/ hobjs c = []) ->
+  exists fresh h, open_schema [1%N; 2%N; 3%N] drops n c = SOk fresh h /\ complete_b n h = true.
 Proof.
-  unfold schema_crash. rewrite prog_123. destruct k as [|[|j]]; try reflexivity.
-  cbn [firstn]. rewrite firstn_map, firstn_seq0. unfold run. cbn [fold_left exec new_file happ hver hobjs].
-  fold (run (map SCreate (seq 0 (Nat.min j n))) (mkH true true [])).
-  change (@nil nat) with (seq 0 0). rewrite run_creates. reflexivity.
+  intros Hc. unfold open_schema.
+  assert (E : negb (match hobjs c with [] => true | _ => false end) && negb (happ c) = false).
+  { destruct Hc as [Hc|Hc]; rewrite Hc; [apply andb_false_r | reflexivity]. }
+  rewrite E. eexists. eexists. split; [reflexivity | apply run_prog_complete].
 Qed.
 
-Lemma open_ok_123 n a v j :
-  (j = 0 \/ (a = true /\ v = true)) -> j <= n ->
-  exists fresh, open_schema [1%N; 2%N; 3%N] n (mkH a v (seq 0 j)) = SOk fresh (complete n).
+(* a kill after k statements of a start on a new file, or on a file that carries the stamp *)
+Lemma crash_openable drops n k h0 :
+  (happ h0 = true \/ hobjs h0 = []) ->
+  let c := schema_crash_from h0 [1%N; 2%N; 3%N] drops n k in happ c = true \/ hobjs c = [].
 Proof.
-  intros Hc Hj. destruct j as [|j].
-  - exists true. unfold open_schema. cbn [hobjs seq negb andb orb].
-    change (@nil nat) with (seq 0 0). rewrite run_prog_123; [reflexivity | lia].
-  - destruct Hc as [Hc|[-> ->]]; [discriminate|]. exists false. unfold open_schema.
-    cbn [hobjs seq happ hver negb andb orb]. change (0 :: seq 1 j) with (seq 0 (S j)).
-    rewrite run_prog_123; [reflexivity | exact Hj].
+  intros H0 c. unfold c, schema_crash_from. rewrite prog_123. destruct k as [|k]; [exact H0|].
+  left. cbn [firstn run fold_left]. apply (proj1 (run_flags _ _)). reflexivity.
 Qed.
 
-Theorem schema_prefix_reopens_123 n k :
-  exists fresh, open_schema [1%N; 2%N; 3%N] n (schema_crash [1%N; 2%N; 3%N] n k) = SOk fresh (complete n).
-Proof.
-  rewrite crash_123. destruct k as [|[|j]].
-  - apply (open_ok_123 n false false 0); [left; reflexivity | lia].
-  - apply (open_ok_123 n true false 0); [left; reflexivity | lia].
-  - apply (open_ok_123 n true true (Nat.min j n)); [right; split; reflexivity | lia].
-Qed.
+Theorem schema_prefix_reopens_123 drops n k h0 :
+  (happ h0 = true \/ hobjs h0 = []) ->
+  exists fresh h, open_schema [1%N; 2%N; 3%N] drops n (schema_crash_from h0 [1%N; 2%N; 3%N] drops n k) = SOk fresh h /\
+                  complete_b n h = true.
+Proof. intros H0. apply open_ok. apply crash_openable. exact H0. Qed.
 
 Lemma schema_order_eq : apply_schema_writes = [1%N; 2%N; 3%N].
 Proof. reflexivity. Qed.
 Lemma schema_sequence_eq : apply_schema_sequence = [10%N; 11%N; 12%N; 1%N; 2%N; 3%N; 4%N].
 Proof. reflexivity. Qed.
+Lemma schema_idempotent_eq : schema_statements_idempotent = true.
+Proof. reflexivity. Qed.
 
-(* on the GENERATED order: for scripts with any number of objects, a kill after any number of
-   autocommitted statements: the next apply_schema returns without error with the complete schema *)
-Theorem schema_prefix_reopens n k :
-  exists fresh, open_schema apply_schema_writes n (schema_crash apply_schema_writes n k) = SOk fresh (complete n).
+(* on the GENERATED order, for ANY drop positions and number of objects (in particular the generated
+   ones), a kill after any number of autocommitted statements of a first start or of a start on a
+   stamped file: the next apply_schema returns without error, both stamps and every object present *)
+Theorem schema_prefix_reopens drops n k h0 :
+  (happ h0 = true \/ hobjs h0 = []) ->
+  exists fresh h, open_schema apply_schema_writes drops n (schema_crash_from h0 apply_schema_writes drops n k) = SOk fresh h /\
+                  complete_b n h = true.
 Proof. rewrite schema_order_eq. apply schema_prefix_reopens_123. Qed.
 
 (* stamps after the scripts: a kill after the first CREATE leaves objects without application id *)
 Theorem schema_stamps_last_refuted :
-  exists n k, open_schema [3%N; 1%N; 2%N] n (schema_crash [3%N; 1%N; 2%N] n k) = SInvalidApplicationId.
+  exists n k, open_schema [3%N; 1%N; 2%N] [] n (schema_crash [3%N; 1%N; 2%N] [] n k) = SInvalidApplicationId.
 Proof. exists 2, 1. reflexivity. Qed.
 
+(* the generated instance: all prefixes of the real statement list (45 objects, one of them dropped
+   and created again), first start and start on a complete file; a kill right after the DROP of a
+   start on a complete file leaves the file without that object, the next start puts it back *)
+Definition gen_prog_len : nat := length (prog apply_schema_writes schema_drops schema_persistent_objects).
+Definition gen_complete : head := run (prog apply_schema_writes schema_drops schema_persistent_objects) new_file.
 Lemma schema_example :
-  forallb (reopens_b apply_schema_writes 5) (seq 0 9) = true /\
-  forallb (reopens_b [3%N; 1%N; 2%N] 5) (seq 0 9) = false /\
-  hobjs (schema_crash apply_schema_writes 5 4) = [0; 1].
+  forallb (reopens_b apply_schema_writes schema_drops schema_persistent_objects) (seq 0 (S gen_prog_len)) = true /\
+  forallb (fun k => match open_schema apply_schema_writes schema_drops schema_persistent_objects
+                            (schema_crash_from gen_complete apply_schema_writes schema_drops schema_persistent_objects k) with
+                    | SOk _ h => complete_b schema_persistent_objects h | _ => false end) (seq 0 (S gen_prog_len)) = true /\
+  forallb (reopens_b [3%N; 1%N; 2%N] schema_drops schema_persistent_objects) (seq 0 (S gen_prog_len)) = false /\
+  existsb (fun k => negb (complete_b schema_persistent_objects
+             (schema_crash_from gen_complete apply_schema_writes schema_drops schema_persistent_objects k)))
+          (seq 0 (S gen_prog_len)) = negb (match schema_drops with [] => true | _ => false end).
 Proof. vm_compute. repeat split; reflexivity. Qed.
